@@ -197,7 +197,7 @@ CLAIMED = {
  "C26": ("exploration",
          "Unfiltered grammar universe (LL and LALR, K in 1,3,10), EBNF universes, all repository .par files with seeded mutations, random "
          "bytes through the whole pipeline under catch_unwind; panics are reported with their source location.",
-         "TLC enumerates the structured part of the input space; the mutated/random part is sampled (seeded); hangs are counted, not reported.",
+         "TLC enumerates the structured part of the input space (grammar universes, EBNF universes, directive x definition shapes of Gen_Decl.tla); the mutated/random part is sampled (seeded); hangs are counted, not reported.",
          "TLC-enumerated grammar universes + seeded mutation fuzzing of the whole pipeline, panic = violation",
          "DESIGN.md §6 C26"),
  "C19": ("exploration",
